@@ -122,8 +122,12 @@ StreamIdentifier StreamIdentifier::make_identifier(const Stream& stream) {
 
 StreamIdentifier::address_type StreamIdentifier::serialize(IPv4Address address) {
     address_type addr;
-    OutputMemoryStream output(addr.data(), addr.size());
     addr.fill(0);
+    // Use the IPv4-mapped IPv6 form (::ffff:a.b.c.d), so that an IPv4 address never 
+    // compares equal to the IPv6 address that happens to start with the same 4 bytes
+    addr[10] = 0xff;
+    addr[11] = 0xff;
+    OutputMemoryStream output(addr.data() + 12, addr.size() - 12);
     output.write(address);
     return addr; 
 }
